@@ -100,6 +100,18 @@ def check_case(case: dict) -> Result:
     tol = _tol(n, v)
     got = _lib_shapley(n, v, single=False)
     got1 = _lib_shapley(n, v, single=True)
+    # the same game OBJECT asked several times, through both entry points in both orders; the game must stay what it was
+    from incomplete_cooperative.shapley import compute_shapley_value, compute_shapley_value_for_player
+    from .. import repo
+    obj = repo.full_game(n, v)
+    before = repo.table_bytes(obj)
+    first = [float(x) for x in compute_shapley_value(obj)]
+    desc = {i: float(compute_shapley_value_for_player(i, obj)) for i in reversed(range(n))}
+    again = [float(x) for x in compute_shapley_value(obj)]
+    if repo.table_bytes(obj) != before:
+        res.fail(f"input-game-modified :: n={n}: computing the Shapley value changed the game object's table")
+    if first != got or again != got or [desc[i] for i in range(n)] != got:
+        res.fail(f"repeated-calls-differ :: n={n}: fresh object {got}, same object 1st {first}, single-player descending {[desc[i] for i in range(n)]}, 2nd {again}")
     exact = shapley_exact(v, n)
     for i in range(n):
         if abs(got[i] - float(exact[i])) > tol:
